@@ -403,7 +403,7 @@ func c15NSources(c *c15Case) int {
 func c15Feat(clause string, c *c15Case, o *c15Opt, extra map[string]any) map[string]any {
 	n := c15NSources(c)
 	f := map[string]any{"sub": "sources", "clause": clause, "kind": o.Kind, "winner": c.Winner, "nsources": n,
-		"junk": strings.Join(c.Junk, "+"), "fstate": c.Fstate}
+		"junk": len(c.Junk) > 0, "fstate": c.Fstate}
 	for k, v := range extra {
 		f[k] = v
 	}
